@@ -105,7 +105,8 @@ def showPhase : Phase RequestLine Headers → String
 /-- the harness's handlers: odd-numbered ones pick their own content type and server identity (the router must
     overwrite both), even-numbered ones leave the defaults -/
 def handlerResp (h : Nat) : Response :=
-  let r := (Response.new .http10 .ok).apply (.setBody (str s!"handler-{h}"))
+  let r := (Response.new (if h % 3 = 0 then .http11 else .http10) .ok).apply (.setBody (str s!"handler-{h}"))
+  let r := if h % 5 = 4 then ((r.apply .setDeprecation).apply (.allowMethod .put)).apply .setEncoding else r
   if h % 2 = 1 then (r.apply (.setContentType .plainText)).apply (.setServer (str "handler-set")) else r
 
 /-- step the concrete-buffer model alongside the window model and flag any difference -/
